@@ -492,7 +492,7 @@ def main():
         hit = caught.get(cn[0], False)
         run.canaries.append(dict(name=cn[0], detected=hit))
         if not hit:
-            run.inconc('canary not detected: %s' % cn[0])
+            run.canary_miss(cn[0], caught)
     run.stubs = LS.stubs() + ['pygyro.model.grid np/len shims', 'LayoutHandler.transpose replaced by its contract (established by C01/C03)']
     run.bounds = dict(extents='n_i <= 4 (2-D set) / 3 (3-D set)', operations='one operation from every valid pre-state (inductive step)',
                       layout_sets=list(LAYOUT_SETS) if not quick else ['2d'])
